@@ -17,7 +17,9 @@ from .. import cases
 from .. import annetenv as E
 
 INDENT_FAMILY = {"huawei", "h3c", "optixtrans", "cisco", "nexus", "iosxr", "arista", "aruba", "b4com", "pc"}
-WORDS = ["alpha", "b1", "eth-trunk7", "10.0.0.1/24", "x_y", "Gi0/0/1", "description", "peer", "undo", "no", "set", "vlan", "65000:1"]
+WORDS = ["alpha", "b1", "eth-trunk7", "10.0.0.1/24", "x_y", "Gi0/0/1", "description", "peer", "undo", "no", "set", "vlan", "65000:1",
+         # words that merely END like a policy terminator of some vendor (only whole terminator lines are syntax)
+         "backend-list", "legend-filter", "my-endif", "x-end-set"]
 
 
 def map_rows(tj, vendor, rnd, depth=0):
@@ -29,15 +31,20 @@ def map_rows(tj, vendor, rnd, depth=0):
     return out
 
 
-def rnd_tree(rnd, depth, maxdepth, width):
+# IOS-XR drops every line that ENDS with one of its policy terminators: such rows are outside its well-formed domain
+WORDS_ASR = [w for w in WORDS if not w.endswith(("end-set", "endif", "end-policy"))]
+
+
+def rnd_tree(rnd, depth, maxdepth, width, words=None):
+    words = words or WORDS
     t = []
     seen = set()
     for _ in range(rnd.randint(1, width)):
-        row = [rnd.choice(WORDS) for _ in range(rnd.randint(1, 3))]
+        row = [rnd.choice(words) for _ in range(rnd.randint(1, 3))]
         if tuple(row) in seen:
             continue
         seen.add(tuple(row))
-        kids = rnd_tree(rnd, depth + 1, maxdepth, width) if depth + 1 < maxdepth and rnd.random() < 0.5 else []
+        kids = rnd_tree(rnd, depth + 1, maxdepth, width, words) if depth + 1 < maxdepth and rnd.random() < 0.5 else []
         t.append({"row": row, "kids": kids})
     return t
 
@@ -91,6 +98,19 @@ def iosxr_qos(t, rnd):
         t = list(t) + [{"row": ["class-map", "match-any", "c1"], "kids": [{"row": ["match", "dscp", "af11"], "kids": []},
                                                                           {"row": ["end-class-map"], "kids": []}]}]
     return t
+
+
+def juniper_annot(t, rnd, depth=0):
+    """Junos-family sub-domain: an annotation is a row of its own in annet's trees, `/* {"row": <the statement it precedes>, "comment": ...} */`,
+    standing right before that statement (inside blocks: a top-level annotation has no indentation to be recognised by)"""
+    out = []
+    for n in t:
+        kids = juniper_annot(n["kids"], rnd, depth + 1)
+        if depth > 0 and rnd.random() < 0.4:
+            ann = "/* %s */" % json.dumps({"row": " ".join(n["row"]), "comment": rnd.choice(["note", "note", "uplink to dc1"])})
+            out.append({"row": ann.split(), "kids": []})
+        out.append({"row": n["row"], "kids": kids})
+    return out
 
 
 def lex_text(text):
@@ -156,9 +176,11 @@ def run(ctx):
                 if tj:
                     observe("ros", v, tj)
                 continue
-            tj = rnd_tree(rnd, 0, rnd.choice([2, 3, 4, 5]), 3)
+            tj = rnd_tree(rnd, 0, rnd.choice([2, 3, 4, 5]), 3, WORDS_ASR if v == "iosxr" else WORDS)
             if v in ("cisco", "nexus", "iosxr") and rnd.random() < 0.3:
                 tj = cisco_af(tj, rnd) if v == "cisco" else (iosxr_qos(tj, rnd) if v == "iosxr" else tj)
+            if v in ("juniper", "ribbon") and rnd.random() < 0.3:
+                tj = juniper_annot(tj, rnd)
             observe("rnd", v, tj)
     ctx.sample({"vendor": recs[3]["vendor"], "tree": recs[3]["t"], "text": recs[3].get("text")})
     slim = [{k: v for k, v in r.items() if k in ("id", "t", "t2", "fixed", "indent", "lines")} for r in recs]
